@@ -17,6 +17,9 @@ func libSuite(prop string) Suite {
 			if prop == "C02" && i%12 == 3 {
 				return genSpanBatch(r, prop)
 			}
+			if prop == "C02" && i%6 == 1 {
+				return genMixedLevels(r, prop)
+			}
 			if prop == "C05" && ((tier != "thorough" && i%50 == 49) || (tier == "thorough" && i%200 == 199)) {
 				return genHugeBatch(r, prop)
 			}
